@@ -22,7 +22,10 @@ EXPLANATION = (
     'context is reset on both the normal and the exceptional exit of the waits; D6 thread entry points are noexcept; D7 a '
     'delegated functor runs under a completion handler and always reaches finalize(); D8 a splitting task is re-parented to a '
     'new join-tree node only when nothing that can throw (the user\'s Range/Body copy) stands between that and the attachment '
-    'and spawn of its sibling, so a throw never leaves a join node waiting for a child that does not exist.  "One that was actually thrown", the '
+    'and spawn of its sibling, so a throw never leaves a join node waiting for a child that does not exist; D9 a wait reference taken for a child '
+    'task is taken only when nothing can fail any more before the child is handed over (no user operation - an operation on a '
+    'value of a template-parameter type - and no library call that may throw between reserve() and spawn / execute_and_wait / '
+    'the end of the function).  "One that was actually thrown", the '
     'timing of bodies versus the rethrow and user-object lifetime counts are NOT decided.')
 ASSUMPTIONS = ['the try_call/raii_guard idiom behaves as its definition in _template_helpers.h (checked structurally in D5)',
                'task classes not instantiated by the drivers are not analysed']
@@ -69,6 +72,7 @@ def run(facts, rep):
     d6_noexcept(facts, rep)
     d7_delegate(facts, rep)
     d8_tree_window(facts, rep)
+    d9_reference_window(facts, rep)
     idiom(facts, rep)
 
 
@@ -377,3 +381,52 @@ def d8_tree_window(facts, rep):
                        'never gets its second child, the wait hangs and the exception is never rethrown' % '; '.join(sorted(set(bad))[:2]),
                        ln=nd['ln'])
     rep.floor('D8', 3, 'offer_work_impl of the three tree-based algorithms')
+
+
+
+# ---------------------------------------------------------------------------------------------------------------
+WAIT_CLASSES = ('wait_context', 'wait_context_vertex', 'wait_tree_vertex_interface', 'reference_vertex')
+HAND_OVER = ('spawn', 'spawn_self', 'execute_and_wait', 'enqueue', 'spawn_in_graph_arena', 'wait', 'run_and_wait', 'submit',
+             'notify_waiters', 'enqueue_task', 'spawn_and_notify')
+
+
+def d9_reference_window(facts, rep):
+    """After X.reserve() the waiter expects one more release.  The release belongs to a child task (its finalize) or to the
+    object being constructed (its destructor / finalize).  If an exception leaves the function between the reserve and the
+    point where the child is handed to the scheduler, nobody will ever release: the wait hangs and the exception that the
+    dispatcher stored is never rethrown.  Rule: in that window there is no user operation (copy / dereference / increment /
+    comparison of a template-parameter typed value, a user functor call) and no library call with a may-throw summary.
+    (Base-class constructors that reserve are paired with their destructor by the language; windows inside a
+    try_call(...).on_exception(...) body are separate functions whose handler is checked by the idiom rule.)"""
+    from rules.common import MayThrow
+    mt = MayThrow(facts)
+    seen = set()
+    n = 0
+    for fn in facts.fns.values():
+        if not fn.q.startswith('tbb::detail::'):
+            continue
+        rs = [c for c in calls_named(fn, ('reserve',)) if (c[3].get('cls') or '').split('::')[-1] in WAIT_CLASSES]
+        for pos, s, node, d in rs:
+            key = (fn.p, fn.file, node['ln'])
+            reached, ex, par = fn.walk(pos, stop_elem=lambda p, e: isinstance(e, int) and fn.nodes[e].get('k') == 'call' and
+                                       (fn.callee(e) or {}).get('n') in HAND_OVER)
+            bad = []
+            for q in reached:
+                if q == pos:
+                    continue
+                e = fn.elems(q[0])[q[1]]
+                if not isinstance(e, int) or fn.nodes[e].get('k') not in ('call', 'ctor', 'new', 'unop', 'binop', 'throw'):
+                    continue
+                cd = fn.callee(e) if fn.nodes[e].get('k') in ('call', 'ctor') else None
+                if cd is not None and cd.get('n') in HAND_OVER:
+                    continue
+                if mt.node(fn, e):
+                    bad.append('%s at line %s' % ((cd or {}).get('n') or fn.nodes[e].get('op') or fn.nodes[e].get('k'), fn.nodes[e].get('ln')))
+            if key not in seen:
+                seen.add(key)
+                n += 1
+            rep.ob('D9', 'K9', fn, 'nothing can throw between reserve() at line %s and the hand-over of the child' % node['ln'], not bad,
+                   'the reference taken at line %s is leaked when %s throws (user iterator / item copy, allocation): the task that threw is '
+                   'cancelled but the extra reference is never released, the wait never ends and the stored exception is never '
+                   'rethrown' % (node['ln'], '; '.join(sorted(set(bad))[:3])), ln=node['ln'], key_extra='%s:%s' % (fn.file, node['ln']))
+    rep.floor('D9', 12, 'reserve() sites on wait contexts / vertices')
